@@ -17,6 +17,13 @@ const (
 	// recordSpanBackoff is the time to wait after a failure on the RecordSpan
 	// endpoint before retrying
 	recordSpanBackoff = 15 * time.Second
+
+	// maxQueueSize bounds the number of queue slots allocated for one
+	// application. The configured queue size comes from the agent (a uint64
+	// in the application info): without a bound, a large value makes the
+	// daemon panic (makechan: size out of range) or exhaust its memory when
+	// the queue is created. Ten times the agent's default queue size.
+	maxQueueSize uint64 = 1000000
 	// numCodes is the total number of grpc.Codes
 	numCodes = 17
 	// supportability metrics
@@ -118,6 +125,12 @@ type traceObserverSupportability struct {
 }
 
 func newTraceObserverWithWorker(cfg *Config) (*TraceObserver, func()) {
+	if cfg.QueueSize > maxQueueSize {
+		log.Warnf("trace observer: span queue size %d lowered to the maximum of %d", cfg.QueueSize, maxQueueSize)
+		limited := *cfg
+		limited.QueueSize = maxQueueSize
+		cfg = &limited
+	}
 	to := &TraceObserver{
 		messages:                  make(chan *spanBatch, cfg.QueueSize),
 		messagesSent:              make(chan uint64, cfg.QueueSize+1), // every queued batch plus the one being sent
